@@ -100,6 +100,46 @@ M = [
     ("ballot-graph-missing-swap", "votekit/graphs/ballot_graph.py",
      "                (bal, (bal[1], bal[0]) + bal[2:]) for bal in nodes if len(bal) >= 2", "                (bal, (bal[1], bal[0]) + bal[2:]) for bal in nodes if len(bal) >= 3", ["C19"]),
     ("expand-ties-weight", "votekit/utils.py", "weight=ballot.weight / math.factorial(len(s)),", "weight=ballot.weight / len(s),", ["C12"]),
+    # ---- second batch: entry points not touched by the first list
+    ("cumulative-without-replacement", "votekit/ballot_generator.py",
+     "                        p=cand_support_vec,\n                        replace=True,", "                        p=cand_support_vec,\n                        replace=False,", ["C16"]),
+    ("ic-not-uniform", "votekit/ballot_generator.py", 'super().__init__(alpha=float("inf"), **data)', "super().__init__(alpha=1, **data)", ["C16"]),
+    ("spatial-sort-reversed-all", "votekit/ballot_generator.py",
+     "candidate_order = sorted(distance_dict, key=distance_dict.__getitem__)", "candidate_order = sorted(distance_dict, key=distance_dict.__getitem__, reverse=True)", ["C16"]),
+    ("simplex-one-ballot-short", "votekit/ballot_generator.py",
+     "            a=len(perm_rankings), size=number_of_ballots, p=draw_probabilities\n        )\n\n        ballot_pool = [perm_rankings[indices[i]] for i in range(number_of_ballots)]",
+     "            a=len(perm_rankings), size=number_of_ballots, p=draw_probabilities\n        )\n\n        ballot_pool = [perm_rankings[indices[i]] for i in range(max(number_of_ballots - 1, 1))]", ["C14"]),
+    ("ac-crossover-count-off-by-one", "votekit/ballot_generator.py", "                if i < num_cross_ballots:", "                if i <= num_cross_ballots:", ["C14", "C16"]),
+    ("to-csv-weight-int", "votekit/pref_profile.py", '"weight": float(ballot.weight),', '"weight": int(ballot.weight),', ["C18"]),
+    ("lp-inf-min", "votekit/metrics/distances.py", "        return max(diff)", "        return min(diff)", ["C19"]),
+    ("ballotgraph-fix-short-off", "votekit/graphs/ballot_graph.py",
+     "if len(ballot_node) == len(self.candidates) - 1 and fix_short:", "if len(ballot_node) == len(self.candidates) - 2 and fix_short:", ["C19"]),
+    ("alaska-stage-order-unchecked", "votekit/elections/election_types/ranking/alaska.py", "        elif m_1 < m_2:", "        elif m_1 < m_2 - 1:", ["C20"]),
+    ("pv-noninteger-accepted", "votekit/elections/election_types/ranking/plurality_veto.py",
+     "            elif int(ballot.weight) != ballot.weight:", "            elif False:", ["C20"]),
+    ("quota-unknown-defaults-to-hare", "votekit/elections/election_types/ranking/stv.py",
+     '                raise ValueError("Misspelled or unknown quota type.")', "                return int(total_ballot_wt / self.m)", ["C20"]),
+    ("sntv-ignores-tiebreak", "votekit/elections/election_types/ranking/plurality.py",
+     "        super().__init__(profile, m, tiebreak)", "        super().__init__(profile, m, None)", ["C13"]),
+    ("irv-quota-not-forwarded", "votekit/elections/election_types/ranking/stv.py",
+     "        super().__init__(profile, m=1, quota=quota, tiebreak=tiebreak)", '        super().__init__(profile, m=1, quota="droop", tiebreak=tiebreak)', ["C13"]),
+    ("rating-totals-ignore-weight", "votekit/utils.py", "                scores[c] += score * ballot.weight", "                scores[c] += score", ["C05"]),
+    ("status-df-round-off", "votekit/models.py",
+     'status_df.at[c, "Status"] = "Elected"\n                    status_df.at[c, "Round"] = i + 1', 'status_df.at[c, "Status"] = "Elected"\n                    status_df.at[c, "Round"] = i', ["C09"]),
+    ("score-tiebreak-ascending", "votekit/utils.py",
+     "        new_ranking = score_dict_to_ranking(tiebreak_scores)", "        new_ranking = score_dict_to_ranking(tiebreak_scores, sort_high_low=False)", ["C10"]),
+    ("ballot-not-frozen", "votekit/ballot.py",
+     "@dataclass(frozen=True, config=ConfigDict(arbitrary_types_allowed=True))\nclass Ballot:", "@dataclass(frozen=False, config=ConfigDict(arbitrary_types_allowed=True))\nclass Ballot:", ["C11"]),
+    ("interval-zero-support-kept", "votekit/pref_interval.py",
+     "                {c: s for c, s in self.interval.items() if s > 0}", "                {c: s for c, s in self.interval.items() if s >= 0}", ["C15", "C14"]),
+    ("brd-cubes", "votekit/elections/election_types/ranking/boosted_random_dictator.py", "            p = np.power(p, 2)", "            p = np.power(p, 3)", ["C17"]),
+    ("add-missing-cands-drops-duplicates-weight", "votekit/utils.py",
+     "    return PreferenceProfile(\n        ballots=tuple(new_ballots), candidates=tuple(candidates)\n    ).condense_ballots()",
+     "    return PreferenceProfile(\n        ballots=tuple(set(new_ballots)), candidates=tuple(candidates)\n    ).condense_ballots()", ["C12", "C04"]),
+    ("scottish-weight-ignored", "votekit/cvr_loaders.py", "        ballot_weight = Fraction(line[0])", "        ballot_weight = Fraction(1)", ["C18"]),
+    ("dedup-keeps-last", "votekit/cleaning.py",
+     "            if cand in ranking and cand not in dedup_ranking:\n                dedup_ranking.append(cand)",
+     "            if cand in dedup_ranking:\n                dedup_ranking.remove(cand)\n            dedup_ranking.append(cand)", ["C12"]),
     ("sorted-candidates-first-place-tiebreak-hash", "votekit/elections/election_types/ranking/stv.py",
      "            c = list(s)[0]  # all cands in set have same score", "            c = list(s)[0]  # all cands in set have same score", []),
 ]
